@@ -1,6 +1,7 @@
 package c27
 
 import (
+	"crypto/ed25519"
 	"context"
 	"fmt"
 	"io"
@@ -125,6 +126,14 @@ func buildFixture() *fixture {
 		m := honest(C, ch1, "fca")
 		m.FromPeerId = A.ID.String()
 		add("signed-by-C-claims-A", m, false, ch1, C, "fca")
+	}
+	// signed by C, claims A, C's public key attached to the signature object
+	// (the optional Signature.pub_key field)
+	{
+		m := honest(C, ch1, "fcak")
+		m.FromPeerId = A.ID.String()
+		m.Signature.PubKey = append([]byte{0x08, 0x01, 0x12, 0x20}, C.Std.Public().(ed25519.PublicKey)...)
+		add("signed-by-C-claims-A-C-key-attached", m, false, ch1, C, "fcak")
 	}
 	// other signing contexts
 	add("ctx-other-suffix", sign(pubCtx+ch1+"other", A, mustMarshal(inner(ch1, "ctxo"))), false, ch1, A, "ctxo")
